@@ -113,7 +113,10 @@ def _run_main6(ctx):
         rows = P.table(ctx, CSL + 'drain', ['self'])
         want = ['std::collections::HashMap::iter(self.slots)', 'for _ in std::collections::HashMap::iter(self.slots) {',
                 'indexmap::IndexSet::insert(self.freed_channel_ids, iter_item(std::collections::HashMap::iter(self.slots)).0)', '}', 'std::collections::HashMap::drain(self.slots)']
-        r.check('drain:frees-all-ids', len(rows) == 1 and rows[0].effects == want, ctx.site(CSL + 'drain'), built=[x.row() for x in rows], expected=want)
+        # the expression that builds the iterator (iter / keys / copied ..) has no effect of its own: what counts is the loop, its body, the drain
+        ITER_BUILD = ('std::collections::HashMap::iter(self.slots)', 'std::collections::HashMap::keys(self.slots)', 'std::iter::Iterator::copied(', 'std::iter::Iterator::cloned(')
+        eff = [e for e in rows[0].effects if not e.startswith(ITER_BUILD)] if len(rows) == 1 else None
+        r.check('drain:frees-all-ids', eff == want[1:], ctx.site(CSL + 'drain'), built=[x.row() for x in rows], expected=want)
         # nothing else removes from / inserts into the map
         muts = {}
         for p, fn in ctx.fns.items():
